@@ -264,6 +264,7 @@ struct Stream
   Fault *rd_eof;
   Fault *rd_eio;
   Fault *wr;
+  Fault *noseek;
   uint64_t written;
   bool wr_failed;
 };
@@ -353,6 +354,13 @@ static ssize_t ck_write(void *c, const char *buf, size_t size)
 static int ck_seek(void *c, off64_t *off, int whence)
 {
   Stream *s = (Stream *)c;
+  if (s->noseek != NULL)
+  {
+    s->noseek->fired++;
+    sim_event(SEAM_SEEK, s->path_hash, (uint64_t)-ESPIPE);
+    errno = ESPIPE;
+    return -1;
+  }
   int64_t base = 0;
   if (whence == SEEK_CUR) { base = (int64_t)s->pos; }
   else if (whence == SEEK_END) { base = (int64_t)s->f->data.size(); }
@@ -470,6 +478,7 @@ static FILE *sim_fopen(const char *path, const char *mode)
   s->is_dir = is_dir;
   s->rd_eof = find_fault(F_READ_EOF, norm, nth);
   s->rd_eio = find_fault(F_READ_EIO, norm, nth);
+  s->noseek = find_fault(F_NOSEEK, norm, nth);
   s->wr = want_write ? find_fault(F_WRITE_FAIL, norm, nth) : NULL;
   s->written = 0;
   s->wr_failed = false;
